@@ -43,6 +43,7 @@ R08.8 replace-type is looked up, for parameters and for results, in the config m
 	ruleR075(c, r, "R08.6")
 	ruleGenerateData(c, loadRepo(c, packages.LoadSyntax, "", "./internal"), "R08.6")
 	ruleTwoPasses(c, r, "R08.6")
+	rulePkgConfigArg(c, r, "R08.6")
 	// R08.8: replace-type is consulted at the interface's own (merged) level
 	{
 		ri := loadRepo(c, packages.LoadSyntax, "", "./internal")
@@ -99,6 +100,7 @@ func configResolutionGuard(c *Ctx, rule string) {
 	ruleMergeStringMaps(sub, r, cp)
 	ruleGenerateData(sub, r, "R08.6")
 	ruleTwoPasses(sub, r, "R08.6")
+	rulePkgConfigArg(sub, r, "R08.6")
 	if fd := FuncDecl(cp, "RootConfig.Initialize"); fd != nil {
 		checkRecursiveOrder(sub, r, cp, fd, "R07.5", "Initialize|recursive-order")
 	}
@@ -779,4 +781,56 @@ func ruleTwoPasses(c *Ctx, r *Repo, rule string) {
 	})
 	ok := initPos.IsValid() && readPos.IsValid() && initPos < readPos
 	c.Check(ok, rule, "Run|second-pass", r.Pos(run.Pos()), "Run re-initialises the configuration before listing the packages (its error is covered by R09.1)", "RootApp.Run does not run RootConfig.Initialize before it reads the packages: what a recursive package pushed into a listed sub-package during the first pass never reaches that sub-package's listed interfaces, whose mocks are then rendered with the template-data of a less specific level")
+}
+
+// rulePkgConfigArg: the configuration the generator takes its file-level template-data (boilerplate,
+// build tags, ...) from is the config of the package the file's mocks come from, not the root's.
+func rulePkgConfigArg(c *Ctx, r *Repo, rule string) {
+	cmdp := r.Pkg("internal/cmd")
+	info := cmdp.TypesInfo
+	run := FuncDecl(cmdp, "RootApp.Run")
+	if run == nil {
+		return
+	}
+	fc := newFuncCanon(info, run)
+	found := false
+	ast.Inspect(run.Body, func(n ast.Node) bool {
+		call, ok := n.(*ast.CallExpr)
+		if !ok || calleeName(info, call) != modPath+"/internal.NewTemplateGenerator" {
+			return true
+		}
+		sig := calleeFunc(info, call).Type().(*types.Signature)
+		for i := 0; i < sig.Params().Len() && i < len(call.Args); i++ {
+			if sig.Params().At(i).Name() != "pkgConfig" {
+				continue
+			}
+			found = true
+			cx := fc.E(call.Args[i])
+			// GetPackageConfig(<the file's source package path>).Config or something read from the file's own collection
+			good := strings.Contains(cx, "GetPackageConfig<(config.RootConfig).GetPackageConfig>(") && strings.HasSuffix(cx, "#0.Config") && strings.Contains(cx, "rangeval(") ||
+				strings.HasPrefix(cx, "rangeval(") && strings.Contains(cx, "InterfaceCollection")
+			c.Check(good, rule, "Run|generator-package-config", r.Pos(call.Args[i].Pos()), "file-level settings come from the config of the file's source package", "the generator's package config is "+cx+", not the config of the package the file's mocks come from: package-level template-data (boilerplate-file, mock-build-tags, ...) is ignored for the file")
+		}
+		return true
+	})
+	if !found {
+		c.Fail(rule, "Run|generator-package-config", r.Pos(run.Pos()), "Run does not pass a package config to NewTemplateGenerator")
+	}
+}
+
+// subRules runs rules of another property in a scratch context and re-reports their obligations
+// under the given rule of this check (a violated necessary condition shared by several properties).
+func subRules(c *Ctx, rule, label, why string, run func(sub *Ctx)) {
+	sub := newCtx(c.Prop, c.Tier)
+	sub.known = nil
+	run(sub)
+	for _, id := range sub.ruleList {
+		for i := 0; i < sub.rules[id].Instances-countFails(sub, id); i++ {
+			c.OK(rule, label+"|"+id, "", "holds")
+		}
+	}
+	for _, k := range sub.failKeys {
+		o := sub.fails[k]
+		c.Fail(rule, label+"|"+o.Key, o.Pos, why+o.Detail)
+	}
 }
